@@ -88,12 +88,23 @@ def _cases(rng, mode, session, step, seeds):
     return out
 
 
+def _write_faults(rng, mode, session):
+    """every sendmsg call of the session, both kinds — cheap, and the only faults that hit a task blocked on a mutex"""
+    wchunk = WCHUNK[session]
+    _, calls = _probe(mode, session, wchunk)
+    return ["X %d %s w%d%s %d %d %s" % (rng.randint(0, 10 ** 6), mode, j, k, rng.choice([1, 7, 16, 1000]), wchunk, session)
+            for j in range(0, calls + 2) for k in "ER"]
+
+
 def gen(rng, tier):
     quick = tier == "quick"
     cases = []
     cases += _cases(rng, "p", S_MAIN, 1, 1 if quick else 3)
     cases += _cases(rng, "p", S_BACK, 3 if quick else 1, 1 if quick else 3)
     cases += _cases(rng, "b", S_BUS, 2 if quick else 1, 1 if quick else 3)
+    # the main session on a bus connection: the first stream holds the subscriptions mutex across its (unanswered) AddMatch call,
+    # the second one waits for it and sends its own AddMatch only after the failure
+    cases += _write_faults(rng, "b", S_MAIN)
     if not quick:
         cases += _cases(rng, "p", S_ALT, 1, 3)
         cases += _cases(rng, "b", S_MAIN, 2, 1)
